@@ -244,6 +244,21 @@ fn s(v: &[u8]) -> Option<String> {
 
 /// `None` when the value has no crate representation (invalid UTF-8,
 /// unassigned code, attribute/format mismatch).
+/// The caller's byte strings rarely have `capacity == len` (they are built
+/// by pushing, or cut from larger buffers): values handed to the library get
+/// spare capacity, so that nothing can depend on the allocation's size.
+fn spare(v: &[u8]) -> Vec<u8> {
+    let mut x = Vec::with_capacity(v.len() + 1 + v.len() % 13);
+    x.extend_from_slice(v);
+    x
+}
+
+fn spare_s(v: String) -> String {
+    let mut x = String::with_capacity(v.len() + 1 + v.len() % 11);
+    x.push_str(&v);
+    x
+}
+
 pub fn to_crate_avp(a: &SpecAvp, bits: &dyn Fn(u16) -> Option<MaskBits>) -> Option<AVP> {
     if let Val::Hidden(v) = &a.val {
         return Some(AVP::Hidden(t::Hidden {
@@ -261,7 +276,7 @@ pub fn to_crate_avp(a: &SpecAvp, bits: &dyn Fn(u16) -> Option<MaskBits>) -> Opti
                     error_type: error_type_from_code(*et)?,
                     error_message: match msg {
                         None => None,
-                        Some(m) => Some(s(m)?),
+                        Some(m) => Some(spare_s(s(m)?)),
                     },
                 }),
             },
@@ -281,11 +296,11 @@ pub fn to_crate_avp(a: &SpecAvp, bits: &dyn Fn(u16) -> Option<MaskBits>) -> Opti
         }
         (5, Val::U64(v)) => AVP::TieBreaker(t::TieBreaker::from(*v)),
         (6, Val::U16(v)) => AVP::FirmwareRevision(t::FirmwareRevision::from(*v)),
-        (7, Val::Bytes(v)) => AVP::HostName(t::HostName::from(v.clone())),
-        (8, Val::Str(v)) => AVP::VendorName(t::VendorName::from(s(v)?)),
+        (7, Val::Bytes(v)) => AVP::HostName(t::HostName::from(spare(v))),
+        (8, Val::Str(v)) => AVP::VendorName(t::VendorName::from(spare_s(s(v)?))),
         (9, Val::U16(v)) => AVP::AssignedTunnelId(t::AssignedTunnelId { value: *v }),
         (10, Val::U16(v)) => AVP::ReceiveWindowSize(t::ReceiveWindowSize { value: *v }),
-        (11, Val::Bytes(v)) => AVP::Challenge(t::Challenge::from(v.clone())),
+        (11, Val::Bytes(v)) => AVP::Challenge(t::Challenge::from(spare(v))),
         (
             12,
             Val::Q931 {
@@ -298,7 +313,7 @@ pub fn to_crate_avp(a: &SpecAvp, bits: &dyn Fn(u16) -> Option<MaskBits>) -> Opti
             cause_msg: *msg,
             advisory: match advisory {
                 None => None,
-                Some(a) => Some(s(a)?),
+                Some(a) => Some(spare_s(s(a)?)),
             },
         }),
         (13, Val::Fix16(v)) => AVP::ChallengeResponse(t::ChallengeResponse::from(*v)),
@@ -306,23 +321,23 @@ pub fn to_crate_avp(a: &SpecAvp, bits: &dyn Fn(u16) -> Option<MaskBits>) -> Opti
         (15, Val::U32(v)) => AVP::CallSerialNumber(t::CallSerialNumber { value: *v }),
         (16, Val::U32(v)) => AVP::MinimumBps(t::MinimumBps { value: *v }),
         (17, Val::U32(v)) => AVP::MaximumBps(t::MaximumBps { value: *v }),
-        (21, Val::Str(v)) => AVP::CalledNumber(t::CalledNumber::from(s(v)?)),
-        (22, Val::Str(v)) => AVP::CallingNumber(t::CallingNumber::from(s(v)?)),
-        (23, Val::Str(v)) => AVP::SubAddress(t::SubAddress::from(s(v)?)),
+        (21, Val::Str(v)) => AVP::CalledNumber(t::CalledNumber::from(spare_s(s(v)?))),
+        (22, Val::Str(v)) => AVP::CallingNumber(t::CallingNumber::from(spare_s(s(v)?))),
+        (23, Val::Str(v)) => AVP::SubAddress(t::SubAddress::from(spare_s(s(v)?))),
         (24, Val::U32(v)) => AVP::TxConnectSpeed(t::TxConnectSpeed { value: *v }),
         (25, Val::Fix4(v)) => AVP::PhysicalChannelId(t::PhysicalChannelId::from(*v)),
         (26, Val::Bytes(v)) => {
-            AVP::InitialReceivedLcpConfReq(t::InitialReceivedLcpConfReq::from(v.clone()))
+            AVP::InitialReceivedLcpConfReq(t::InitialReceivedLcpConfReq::from(spare(v)))
         }
-        (27, Val::Bytes(v)) => AVP::LastSentLcpConfReq(t::LastSentLcpConfReq::from(v.clone())),
+        (27, Val::Bytes(v)) => AVP::LastSentLcpConfReq(t::LastSentLcpConfReq::from(spare(v))),
         (28, Val::Bytes(v)) => {
-            AVP::LastReceivedLcpConfReq(t::LastReceivedLcpConfReq::from(v.clone()))
+            AVP::LastReceivedLcpConfReq(t::LastReceivedLcpConfReq::from(spare(v)))
         }
         (29, Val::Code(c)) => AVP::ProxyAuthenType(proxy_type_from_code(*c)?),
-        (30, Val::Bytes(v)) => AVP::ProxyAuthenName(t::ProxyAuthenName::from(v.clone())),
-        (31, Val::Bytes(v)) => AVP::ProxyAuthenChallenge(t::ProxyAuthenChallenge::from(v.clone())),
+        (30, Val::Bytes(v)) => AVP::ProxyAuthenName(t::ProxyAuthenName::from(spare(v))),
+        (31, Val::Bytes(v)) => AVP::ProxyAuthenChallenge(t::ProxyAuthenChallenge::from(spare(v))),
         (32, Val::ProxyId(v)) => AVP::ProxyAuthenId(t::ProxyAuthenId::from(*v)),
-        (33, Val::Bytes(v)) => AVP::ProxyAuthenResponse(t::ProxyAuthenResponse::from(v.clone())),
+        (33, Val::Bytes(v)) => AVP::ProxyAuthenResponse(t::ProxyAuthenResponse::from(spare(v))),
         (34, Val::CallErrors(e)) => AVP::CallErrors(t::CallErrors {
             crc_errors: e[0],
             framing_errors: e[1],
@@ -336,7 +351,7 @@ pub fn to_crate_avp(a: &SpecAvp, bits: &dyn Fn(u16) -> Option<MaskBits>) -> Opti
             receive_accm: *ra,
         }),
         (36, Val::Fix4(v)) => AVP::RandomVector(t::RandomVector::from(*v)),
-        (37, Val::Bytes(v)) => AVP::PrivateGroupId(t::PrivateGroupId::from(v.clone())),
+        (37, Val::Bytes(v)) => AVP::PrivateGroupId(t::PrivateGroupId::from(spare(v))),
         (38, Val::U32(v)) => AVP::RxConnectSpeed(t::RxConnectSpeed { value: *v }),
         (39, Val::Empty) => AVP::SequencingRequired(t::SequencingRequired {}),
         _ => return None,
@@ -497,7 +512,7 @@ pub fn to_crate_msg(
             session_id: *session_id,
             ns_nr: *ns_nr,
             offset: *offset,
-            data: data.clone(),
+            data: spare(data),
         }),
     })
 }
